@@ -16,7 +16,8 @@ STATEMENT = ('after any history of public table operations every column has one 
              'iteration yields the rows, concat appends rows with None fill, operands are never altered and a non-fitting '
              'assignment is rejected with ValueError')
 LEAN_FILES = ['Basic', 'Cmp', 'Sort', 'TableBasic', 'Table', 'TableSpec', 'TableDriver', 'TableLemmas', 'TableRect', 'TableRows',
-              'TableCons', 'TableNodup', 'SliceLemmas', 'TableAbs', 'TableAbs2', 'TableAbsHeap', 'TableCall', 'C01']
+              'TableCons', 'TableNodup', 'SliceLemmas', 'TableAbs', 'TableAbs2', 'TableAbsHeap', 'TableCall', 'TableSpecPlain', 'TableAlias',
+              'TableMaskPlain', 'TableRagged', 'C01']
 RULE = ('distinct protocol lines of generated histories on which the implementation returned a value (not an exception); '
         'every line also compares the dump of all live tables')
 TRUSTED = ['correspondence harness (pv.engine, pv.proto) and generators / law checks of pv.props.c01',
